@@ -34,6 +34,7 @@ func checkC16(c *Ctx) {
 		}
 		c16Timestamp(c, p, m)
 		c16ModeCallers(c, p)
+		fixedMembersAlways(c, p, m, "R16.3", feasibleModes)
 		instantFlow(c, p, m)
 		c09Pooled(c, p, m, "R16.4", feasibleModes)
 	}
@@ -375,6 +376,19 @@ func c16Timestamp(c *Ctx, p *Prog, m *Model) {
 			}
 		}
 		r.Check(ok, "R16.4", "Entry.SetTimeFormat", p.FuncPos(st), "stores the layout given", "SetTimeFormat does not store the layout given")
+		// ... and never "unset" in its place: a layout that was set stays pinned whatever the flags become later
+		for _, fs := range fieldStores(st) {
+			if fs.Field != "timeLayout" || fs.Base != ssa.Value(receiver(st)) {
+				continue
+			}
+			unset := false
+			for _, sv := range sources(fs.Val) {
+				if cs, isC := constString(sv); isC && cs == "" {
+					unset = true
+				}
+			}
+			r.Check(!unset, "R16.4", "Entry.SetTimeFormat:pinned", p.Pos(instrPos(fs.Instr)), "no path stores the empty layout", "on some path SetTimeFormat stores the empty layout although a layout was given: the logger then follows the flags again, so a later flag change alters a layout that was set explicitly")
+		}
 	}
 	// setentry copies
 	if se := p.Method(p.Slog, "PrintCtx", "setentry"); se != nil {
